@@ -1041,6 +1041,9 @@ func genC05(ctx *hx.Ctx, emit func(hx.Case)) {
 	// ---- E. compositions over pairs of leaf schemas
 	leaves := []map[string]any{c05PS("integer"), c05PS("string"), c05PS("boolean"), c05With(c05PS("integer"), "max", 6), c05PS("number"),
 		{"k": "arr", "items": c05PS("integer")}, {"k": "arr", "items": c05PS("string")}, objSchemas[0], objSchemas[1]}
+	// … and leaves whose values / enums meet across alternatives (a value read by one alternative is validated against all)
+	leaves = append(leaves, c05PS("int32"), c05With(c05PS("integer"), "enum", []any{5, 12}),
+		map[string]any{"k": "arr", "items": c05PS("integer"), "enum": []any{[]any{1, 2}}}, map[string]any{"k": "arr", "items": c05PS("int32")})
 	compRaw := []string{"5", "12", "true", "dave", "1,2", "a,5", "a,5,b,x", "a=5", "1.5", "", "a,x"}
 	for _, cl := range c05Cells {
 		if cl.style == "deepObject" {
